@@ -23,8 +23,8 @@ type Ctx struct {
 
 	Overlay map[string][]byte
 	Dead    map[string]bool // helpers inlined everywhere by package norm (left out of every loaded program)
-	Fold    *FoldSet // registered helpers (see roles.go)
-	Sub     *SubCache // reports of included properties, shared along include chains
+	Fold    *FoldSet        // registered helpers (see roles.go)
+	Sub     *SubCache       // reports of included properties, shared along include chains
 	conn    map[string]*ana.Prog
 	roots   *Roots
 }
@@ -36,6 +36,7 @@ type Roots struct {
 	Msg        []*ssa.Function
 	Gov        []*ssa.Function
 	InitGen    []*ssa.Function
+	Hooks      []*ssa.Function // staking hooks of the module (run inside the staking module's block / message processing)
 	ExportGen  []*ssa.Function
 	Query      []*ssa.Function
 }
@@ -150,6 +151,14 @@ func (c *Ctx) Roots() *Roots {
 			}
 		}
 	}
+	// staking hooks: methods of the module's Hooks type
+	for _, mod := range []string{"mhub2/keeper", "oracle/keeper"} {
+		for _, fn := range p.MethodsOf(mod, "Hooks") {
+			if !p.L.IsGenerated(fn.Pos()) && fn.Blocks != nil {
+				r.Hooks = append(r.Hooks, fn)
+			}
+		}
+	}
 	// governance: anonymous functions created inside NewProposalsHandler
 	for _, fn := range p.Funcs {
 		if fn.Parent() != nil && ana.Outermost(fn).Name() == "NewProposalsHandler" {
@@ -178,6 +187,7 @@ func (c *Ctx) ConsensusReach() map[*ssa.Function]bool {
 	all = append(all, r.Msg...)
 	all = append(all, r.Gov...)
 	all = append(all, r.InitGen...)
+	all = append(all, r.Hooks...)
 	return c.P.Reach(all...)
 }
 
@@ -189,6 +199,7 @@ func (c *Ctx) LiveReach() map[*ssa.Function]bool {
 	all = append(all, r.Msg...)
 	all = append(all, r.Gov...)
 	all = append(all, r.InitGen...)
+	all = append(all, r.Hooks...)
 	all = append(all, r.ExportGen...)
 	all = append(all, r.Query...)
 	return c.P.Reach(all...)
